@@ -1,5 +1,5 @@
 (** Proofs about model/ParamCache.v (property C07). *)
-From Coq Require Import ZArith List Bool String Ascii Lia Arith.
+From Coq Require Import ZArith List Bool String Ascii Lia Arith Permutation.
 From Verif Require Import Base Cal Param ParamCache ParamCacheSpec.
 Import ListNotations.
 Open Scope Z_scope.
@@ -438,13 +438,60 @@ Proof.
     cbn [wf_tree]. split; [rewrite Hn; exact Hnd | apply Ha; exact Hall].
 Qed.
 
-Lemma apply_modifier_wf (ups : list (path * upd Z)) : forall t t',
-  wf_tree t -> apply_modifier t ups = Ok t' -> wf_tree t'.
+Lemma all_wf_app (l : list (string * tree)) (n : string) (c : tree) :
+  (fix all (l : list (string * tree)) : Prop :=
+     match l with [] => True | (_, c) :: r => wf_tree c /\ all r end) l ->
+  wf_tree c ->
+  (fix all (l : list (string * tree)) : Prop :=
+     match l with [] => True | (_, c) :: r => wf_tree c /\ all r end) (l ++ [(n, c)])%list.
 Proof.
-  induction ups as [|[p u] r IH]; intros t t' Hwf H; cbn in H.
+  intros Hl Hc. induction l as [|[m x] r IH]; cbn; [auto|].
+  destruct Hl as [Hx Hr]. split; [exact Hx | apply IH; exact Hr].
+Qed.
+
+Lemma tree_add_wf (p : path) : forall t n c t',
+  wf_tree t -> wf_tree c -> tree_add t p n c = Ok t' -> wf_tree t'.
+Proof.
+  induction p as [|m p IH]; intros t n c t' Hwf Hc H.
+  - destruct t as [h | sc | ch]; cbn in H; try discriminate.
+    destruct (find_child n ch) eqn:Ef; [discriminate|]. inversion H; subst t'.
+    destruct Hwf as [Hnd Hall]. cbn [wf_tree]. split.
+    + rewrite map_app. cbn [map fst].
+      apply (Permutation.Permutation_NoDup (Permutation.Permutation_cons_append (map fst ch) n)).
+      constructor; [apply find_child_none; exact Ef | exact Hnd].
+    + apply all_wf_app; assumption.
+  - destruct t as [h | sc | ch]; cbn [tree_add] in H; try discriminate.
+    match type of H with match ?g ch with _ => _ end = _ => set (go := g) in * end.
+    destruct (go ch) as [ch'|e] eqn:Eg; [|discriminate]. inversion H; subst t'. clear H.
+    assert (G : forall l l', go l = Ok l' ->
+                map fst l' = map fst l /\
+                ((fix all (l : list (string * tree)) : Prop :=
+                    match l with [] => True | (_, c) :: r => wf_tree c /\ all r end) l ->
+                 (fix all (l : list (string * tree)) : Prop :=
+                    match l with [] => True | (_, c) :: r => wf_tree c /\ all r end) l')).
+    { induction l as [|[k x] r IHl]; intros l' Hl; cbn in Hl; [discriminate|].
+      destruct (String.eqb m k).
+      - destruct (tree_add x p n c) as [x'|] eqn:Ec; [|discriminate]. inversion Hl; subst l'.
+        split; [reflexivity|]. intros [Hx Hr]. split; [exact (IH x n c x' Hx Hc Ec) | exact Hr].
+      - fold go in Hl. destruct (go r) as [r'|] eqn:Er; [|discriminate]. inversion Hl; subst l'.
+        destruct (IHl r' eq_refl) as [Hn Ha]. split; [cbn; rewrite Hn; reflexivity|].
+        intros [Hx Hr]. split; [exact Hx | apply Ha; exact Hr]. }
+    destruct (G ch ch' Eg) as [Hn Ha]. destruct Hwf as [Hnd Hall].
+    cbn [wf_tree]. split; [rewrite Hn; exact Hnd | apply Ha; exact Hall].
+Qed.
+
+Lemma apply_modifier_wf (ups : list mitem) : forall t t',
+  wf_tree t -> Forall wf_item ups -> apply_modifier t ups = Ok t' -> wf_tree t'.
+Proof.
+  induction ups as [|it r IH]; intros t t' Hwf Hi H; cbn in H.
   - inversion H; subst; exact Hwf.
-  - destruct (tree_update t p u) as [t1|] eqn:E; [|discriminate].
-    eapply IH; [eapply tree_update_wf; eauto | exact H].
+  - inversion Hi as [|? ? Hit Hr]; subst.
+    destruct (apply_item t it) as [t1|] eqn:E; [|discriminate].
+    assert (W1 : wf_tree t1).
+    { destruct it as [p u | p n c]; cbn in E, Hit.
+      - exact (tree_update_wf p t u t1 Hwf E).
+      - exact (tree_add_wf p t n c t1 Hwf Hit E). }
+    exact (IH t1 t' W1 Hr H).
 Qed.
 
 Lemma gpai_root (m : mode) (s : sys) (i : Z) :
@@ -481,7 +528,7 @@ Proof.
     destruct (apply_modifier (s_root sb) ups) as [t'|] eqn:Em; [|exact Hw].
     destruct rn; [|exact Hw].
     cbn [fst]. unfold wf_world; cbn [w_sys]. apply Forall_replace; [exact Hw|].
-    cbn. eapply apply_modifier_wf; eauto.
+    cbn. eapply apply_modifier_wf; [exact Hb | exact Ho | exact Em].
   - destruct (tree_update (s_root s) p u) as [t'|] eqn:Eu; [|exact Hw].
     pose proof (tree_update_wf p _ u t' Hs Eu) as Ht.
     cbn [fst]. unfold wf_world; cbn [w_sys]. apply Forall_forall. intros x Hx.
